@@ -10,6 +10,7 @@ import (
 
 	"github.com/filecoin-project/go-bitfield"
 	"github.com/filecoin-project/go-f3/gpbft"
+	"github.com/filecoin-project/go-f3/pmsg"
 )
 
 func init() {
@@ -114,7 +115,15 @@ func (b *byzCtl) act(g *gnet) {
 		}
 		return mb
 	}
-	switch b.r.intn(9) {
+	switch b.r.intn(10) {
+	case 9: // an observed quorum justification re-used for ANOTHER value (DECIDE / COMMIT for a foreign chain): must never be admitted,
+		// in whichever form the message travels and whatever was validated before
+		if j := b.observedJust(round, gpbft.COMMIT_PHASE, nil); j != nil && !j.Vote.Value.IsZero() {
+			b.inject(from, mk(gpbft.DECIDE_PHASE, 0, b.alts[len(b.alts)-2], j, false), true)
+		}
+		if j := b.observedJust(round, gpbft.PREPARE_PHASE, nil); j != nil && !j.Vote.Value.IsZero() {
+			b.inject(from, mk(gpbft.COMMIT_PHASE, round, b.alts[len(b.alts)-2], j, false), true)
+		}
 	case 0: // equivocating QUALITY
 		b.inject(from, mk(gpbft.QUALITY_PHASE, 0, alt, nil, false), false)
 		b.inject(from, mk(gpbft.QUALITY_PHASE, 0, b.alts[b.r.intn(len(b.alts))], nil, false), false)
@@ -233,6 +242,7 @@ func simScenario(r *rng, viol func(clause, sig, detail string), opts ...gpbft.Op
 		cfg.dropP = 30
 	}
 	g := newGnet(r, cfg, viol)
+	g.twoStage = r.chance(35) // messages travel in partial form (partial validation, later completion, full validation)
 	// scaled-power check of the Byzantine budget
 	var sb int64
 	for i, nd := range g.nodes {
@@ -597,6 +607,85 @@ func lateStarterRoundsScenario(r *rng, viol func(clause, sig, detail string)) *s
 	return &simResult{g: g, decided: decided, byzVotes: 0, roundAtStab: roundAtStab, deadlock: dl && !decided, budget: !decided && !dl,
 		desc: map[string]any{"scenario": "late starter after a multi-round history of its peers (all of it queued before the start)", "nodes": n, "late": late, "target_round": target,
 			"others_decided": others, "votes": len(g.votes), "max_round": g.maxRound(), "all_decided": decided}}
+}
+
+// quorum justification re-used for another value on the partial-message path: three honest members (75 %) propose V; the
+// third one lags (the COMMITs and DECIDEs addressed to it are slow).  The DECIDE(V) of its peers reaches it in partial form
+// while the chain is "not yet known" to it: validated against the announced key, not delivered.  The Byzantine member (25 %)
+// then sends DECIDE(X) for a foreign chain X carrying the very same COMMIT-quorum justification.  Whatever was validated
+// before, the laggard must not take X: no honest participant ever votes for a chain that no honest participant proposed.
+func justificationReuseScenario(r *rng, viol func(clause, sig, detail string)) *simResult {
+	n := 4
+	powers := []int64{25, 25, 25, 25}
+	byz := []bool{false, false, false, true}
+	base := mkTipset(0, "base")
+	v := &gpbft.ECChain{TipSets: []*gpbft.TipSet{base, mkTipset(1, "V1")}}
+	x := &gpbft.ECChain{TipSets: []*gpbft.TipSet{base, mkTipset(1, "X1")}}
+	inputs := []*gpbft.ECChain{v, v, v, v}
+	cfg := gnetCfg{n: n, powers: powers, byz: byz, inputs: inputs, delta: 2 * time.Second}
+	g := newGnet(r, cfg, viol)
+	g.twoStage = true
+	g.primed = map[string]bool{}
+	lag := 2
+	g.delay = func(from, to int, msg *gpbft.GMessage) (time.Duration, bool) {
+		if to == lag && from != lag && (msg.Vote.Phase == gpbft.COMMIT_PHASE || msg.Vote.Phase == gpbft.DECIDE_PHASE) {
+			return 1000000 * time.Second, true
+		}
+		return 0, false
+	}
+	for i := 0; i < 3; i++ {
+		g.start(i)
+	}
+	for k := 0; k < 3000; k++ {
+		g.run(10, nil)
+		if g.nodes[0].decided != nil && g.nodes[1].decided != nil {
+			break
+		}
+	}
+	bv := 0
+	var genuine *gpbft.GMessage
+	for _, sv := range g.votes {
+		if sv.honest && sv.msg.Vote.Phase == gpbft.DECIDE_PHASE && sv.msg.Justification != nil {
+			genuine = sv.msg
+			break
+		}
+	}
+	if genuine != nil && g.nodes[lag].decided == nil {
+		// the genuine DECIDE(V) messages reach the laggard in partial form; their chain is "not known yet"
+		for _, sv := range g.votes {
+			if sv.honest && sv.msg.Vote.Phase == gpbft.DECIDE_PHASE && sv.sender != lag {
+				if pg, err := pmsg.VerifStrip(cloneMsg(sv.msg)); err == nil {
+					_, _ = g.nodes[lag].p.PartiallyValidateMessage(g.ctx, pg)
+				}
+			}
+		}
+		// the same justification on a DECIDE for the foreign chain, validly signed by the Byzantine member
+		mb := &gpbft.MessageBuilder{NetworkName: verifNet, PowerTable: g.pt,
+			Payload: gpbft.Payload{Instance: g.instance, Round: 0, Phase: gpbft.DECIDE_PHASE, SupplementalData: g.supp, Value: x}, Justification: genuine.Justification}
+		if msg, err := mb.Build(g.ctx, g.backend, g.nodes[3].id); err == nil {
+			g.votes = append(g.votes, &sentVote{sender: 3, msg: msg, honest: false, seq: len(g.votes)})
+			for _, to := range []int{lag, 0, 1} {
+				g.pool = append(g.pool, &pendingMsg{to: to, msg: msg, from: 3, ready: g.now})
+				g.primed[fmt.Sprintf("%d/%p", to, msg)] = true
+			}
+			bv++
+		}
+		g.stopAt = g.now.Add(3 * time.Second)
+		g.run(2000, nil)
+		g.stopAt = time.Time{}
+	}
+	for _, pm := range g.pool {
+		if pm.ready.After(g.now) {
+			pm.ready = g.now
+		}
+	}
+	g.delay = nil
+	g.stabilised = true
+	decided := g.run(60000, nil)
+	g.checkDecisions()
+	return &simResult{g: g, decided: decided, byzVotes: bv, roundAtStab: g.maxRound(),
+		desc: map[string]any{"scenario": "a COMMIT-quorum justification for V re-used on a DECIDE for a foreign chain, after the genuine DECIDE(V) was validated in partial form by the laggard", "laggard": lag,
+			"genuine_found": genuine != nil, "votes": len(g.votes), "max_round": g.maxRound(), "all_decided": decided}}
 }
 
 // failed decision hand-over: the host of one honest participant P fails to accept P's decision (a storage error), while a
@@ -1133,6 +1222,8 @@ func runSpecSim(o *out, r *rng, thorough bool, pid string) {
 			res = signatureReplayScenario(r, viol)
 		} else if i%12 == 1 {
 			res = decisionFaultScenario(r, viol)
+		} else if i%12 == 7 {
+			res = justificationReuseScenario(r, viol)
 		} else if i%6 == 5 {
 			res = splitBrainScenario(r, viol)
 		} else if i%12 == 4 {
